@@ -263,8 +263,10 @@ class JSONSerialization(Serialization):
     @classmethod
     def selector_schema(cls, p, safe=False):
         try:
+            # every allowed object, also those without a label of their own
+            # (added to dict-declared objects later, or sharing a label)
             allowed_types = [{'type': cls.json_schema_literal_types[type(obj)]}
-                             for obj in p.objects.values()]
+                             for obj in p.objects]
             if not allowed_types:
                 # no objects declared: any value is accepted (and an empty
                 # anyOf is not a valid schema)
